@@ -7,7 +7,7 @@ SPEC  CrdtPinsetBatchMC  batching layer of consensus/crdt (queue, batchWorker, t
       CrdtPinsetMC       go-ds-crdt v0.1.21 set/register/delivery transcription: MembershipConvergence and
                          LocalEffect hold (exhaustive); ValueConvergence and HooksCoverStep are refuted by TLC and
                          the counterexamples become replay scripts.
-GEN   batching scripts (seeded: disabled / size / age / queue smaller than burst / injected commit failures, plus
+GEN   batching scripts (behaviours of the specification simulated by TLC - CrdtPinsetBatchGen; seeded: disabled / size / age / queue smaller than burst / injected commit failures, plus
       targeted ones) and multi-replica scripts (TLC counterexamples, the design-phase history, seeded histories).
 R     scripts run on real crdt.Consensus replicas (harness datastore with fault injection, harness PinTracker).
 V     CrdtPinsetTrace / CrdtPinsetNetTrace: TLC evaluates the property predicates on the recorded lines and
@@ -88,8 +88,16 @@ def gen_batch(rng, klass):
                 st.append(rnd_op(rng))
     st.append({"k": "settle"})
     s["steps"] = st
+    linger(s)
     s["nontrivial"] = batch_nontrivial(s)
     return s
+
+
+def linger(s):
+    """after the last settle the replica stays alive for > MaxBatchAge and is observed again (a stray timer
+    expiry or a late effect must not change anything)"""
+    if s["batching"]:
+        s["steps"] += [{"k": "pause", "ms": 3 * s["maxage_ms"]}, {"k": "settle"}]
 
 
 def batch_nontrivial(s):
@@ -100,6 +108,45 @@ def batch_nontrivial(s):
         per[x["c"]] = per.get(x["c"], 0) + 1
     return bool(any(x["k"] == "arm" for x in st) or (s["batching"] and s["maxq"] < len(nops)) or
                 (s["batching"] and any(v >= 2 for v in per.values())))
+
+
+def tlc_batch_scripts(ctx, num):
+    """Scripts read off behaviours of the specification: TLC simulates CrdtPinsetBatch (CrdtPinsetBatchGen) and
+    prints the environment's part of each behaviour once it is quiescent."""
+    r = ctx.tlc("CrdtPinsetBatchGen.tla", "CrdtPinsetBatchGen.cfg", count=False, workers=1, timeout=1200,
+                simulate="num=%d" % num, depth=80, seed=ctx.seed)
+    raw = set()
+    for l in r.out.split("\n"):
+        if l.startswith('"{'):
+            raw.add(tla.parse_value(l))
+    js = [json.loads(x) for x in sorted(raw)]
+    out = []
+    age = 150
+    for j in js:
+        key = json.dumps(j["steps"])[:-1]
+        if any(o is not j and (o["batching"], o["maxsize"], o["maxq"]) == (j["batching"], j["maxsize"], j["maxq"]) and
+               json.dumps(o["steps"]).startswith(key + ",") for o in js):
+            continue    # a longer script of the same behaviour exists
+        st = []
+        for x in j["steps"]:
+            if x["k"] == "pause":
+                if j["batching"]:
+                    st.append({"k": "pause", "ms": 3 * age})
+            elif x["k"] == "arm":
+                st.append({"k": "arm", "n": x["n"]})
+            elif x["k"] == "pin":
+                st.append({"k": "pin", "c": x["c"], "v": x["v"]})
+            else:
+                st.append({"k": "unpin", "c": x["c"]})
+        st.append({"k": "settle"})
+        s = {"batching": j["batching"], "maxsize": j["maxsize"], "maxage_ms": age if j["batching"] else 0,
+             "maxq": j["maxq"], "class": "tlc-sim", "steps": st}
+        linger(s)
+        s["nontrivial"] = batch_nontrivial(s)
+        out.append(s)
+    if not out:
+        raise vcheck.Infra("CrdtPinsetBatchGen produced no scripts")
+    return out
 
 
 def targeted_batch():
@@ -127,6 +174,10 @@ def targeted_batch():
                                                          P("c2", "C"), {"k": "settle"}]),
         # exactly max size, then exactly max size again
         base(klass="t-size-exact", maxsize=2, steps=[P("c1", "A"), P("c2", "A"), P("c1", "B"), U("c2"), {"k": "settle"}]),
+        # a steady trickle slower than the age limit: every batch must still be committed by age
+        base(klass="t-trickle", maxsize=30, maxq=50,
+             steps=sum([[P("c1" if n % 3 else "c2", "ABC"[n % 3]), {"k": "pause", "ms": 100}] for n in range(14)], []) +
+             [{"k": "settle"}]),
         # direct writes with a failing write in the middle
         base(klass="t-direct-fail", batching=False, maxsize=0, maxage_ms=0,
              steps=[P("c1", "A"), {"k": "arm", "n": 1}, P("c1", "B"), {"k": "arm", "n": 1}, U("c1"), P("c2", "C"), U("c2"),
@@ -134,6 +185,7 @@ def targeted_batch():
     ]
     for s in out:
         s["class"] = s.pop("klass")
+        linger(s)
         s["nontrivial"] = batch_nontrivial(s)
     return out
 
@@ -141,14 +193,21 @@ def targeted_batch():
 # --------------------------------------------------------------------------- multi-replica scripts
 def hist_to_script(hist, nrep, klass):
     """TLC counterexample (hist of CrdtPinsetMC) -> script: operations and connections in order, a sync
-    before every connection and at the end (delivery steps are left to the real replicas)."""
+    around every connection, after every operation once connected, and at the end (delivery steps are left to the
+    real replicas). With batches in the history every operation goes through the batching layer (bsize 2)."""
     st = []
     connected = False
+    bsize = 2 if any(h["k"] == "batch" for h in hist) else 0
     for h in hist:
-        if h["k"] in ("pin", "unpin"):
-            x = {"k": h["k"], "r": h["r"], "c": h["c"]}
-            if h["k"] == "pin":
-                x["v"] = h["v"]
+        if h["k"] in ("pin", "unpin", "batch"):
+            if h["k"] == "batch":
+                x = {"k": "batch", "r": h["r"], "ops": [dict(k=o["k"], c=o["c"], v=o["v"]) for o in h["ops"]]}
+            elif bsize:
+                x = {"k": "batch", "r": h["r"], "ops": [dict(k=h["k"], c=h["c"], v=h["v"])]}
+            else:
+                x = {"k": h["k"], "r": h["r"], "c": h["c"]}
+                if h["k"] == "pin":
+                    x["v"] = h["v"]
             st.append(x)
             if connected:
                 st.append({"k": "sync"})    # keep the issuing replica level with its component
@@ -159,7 +218,7 @@ def hist_to_script(hist, nrep, klass):
             st.append({"k": "sync"})
     st.append({"k": "sync"})
     st = [x for i, x in enumerate(st) if not (x["k"] == "sync" and i > 0 and st[i - 1]["k"] == "sync")]
-    return {"nrep": nrep, "class": klass, "steps": st}
+    return {"nrep": nrep, "bsize": bsize, "class": klass, "steps": st}
 
 
 def gen_net(rng):
@@ -169,13 +228,24 @@ def gen_net(rng):
     comp = {r: {r} for r in reps}
     hot = rng.choice(CIDS)
 
+    bsize = 2 if rng.random() < 0.35 else 0
+
+    def one_op():
+        c = hot if rng.random() < 0.8 else rng.choice(CIDS)
+        if rng.random() < 0.35:
+            return {"k": "unpin", "c": c, "v": "-"}
+        return {"k": "pin", "c": c, "v": rng.choice(VALS)}
+
     def some_ops(r, n):
         for _ in range(n):
-            c = hot if rng.random() < 0.8 else rng.choice(CIDS)
-            if rng.random() < 0.35:
-                st.append({"k": "unpin", "r": r, "c": c})
+            if bsize:
+                st.append({"k": "batch", "r": r, "ops": [one_op() for _ in range(rng.choice([1, 2, 2]))]})
             else:
-                st.append({"k": "pin", "r": r, "c": c, "v": rng.choice(VALS)})
+                o = one_op()
+                x = {"k": o["k"], "r": r, "c": o["c"]}
+                if o["k"] == "pin":
+                    x["v"] = o["v"]
+                st.append(x)
 
     # isolated phase: everybody may write
     for r in reps:
@@ -205,7 +275,7 @@ def gen_net(rng):
         if x["k"] == "sync" and out and out[-1]["k"] == "sync":
             continue
         out.append(x)
-    return {"nrep": nrep, "class": "seeded", "steps": out}
+    return {"nrep": nrep, "bsize": bsize, "trust": rng.choice(["all", "all", "mutual"]), "class": "seeded", "steps": out}
 
 
 def net_nontrivial(s):
@@ -213,10 +283,13 @@ def net_nontrivial(s):
     for x in s["steps"]:
         if x["k"] in ("pin", "unpin"):
             w.setdefault(x["c"], set()).add(x["r"])
+        elif x["k"] == "batch":
+            for o in x["ops"]:
+                w.setdefault(o["c"], set()).add(x["r"])
     return any(len(v) >= 2 for v in w.values())
 
 
-DESIGN_NET = {"nrep": 3, "class": "design-phase", "steps": [
+DESIGN_NET = {"nrep": 3, "bsize": 0, "class": "design-phase", "steps": [
     {"k": "pin", "r": "r0", "c": "c1", "v": "B"}, {"k": "pin", "r": "r1", "c": "c1", "v": "A"},
     {"k": "unpin", "r": "r1", "c": "c1"}, {"k": "connect", "r": "r0", "s": "r2"}, {"k": "sync"},
     {"k": "connect", "r": "r1", "s": "r2"}, {"k": "sync"}]}
@@ -251,11 +324,24 @@ def tlc_verdict(ctx, module, cfg, trace, name):
     return v
 
 
+class Crashed(Exception):
+    pass
+
+
+def crashed(ctx, dr):
+    """A panic inside ipfs-cluster / go-ds-crdt code while the scripts ran is a violation (recorded by go_test);
+    there is no trace to validate then."""
+    if dr.rc != 0:
+        raise Crashed()
+
+
 def run_batch(ctx, scripts, par=8):
     inp = os.path.join(ctx.work, "c02_batch.ndjson")
     trace = os.path.join(ctx.work, "c02_batch.trace")
     write_cases(inp, scripts)
-    ctx.go_test("c02_crdt", run="TestBatch$", infile=inp, env={"VERIF_TRACE": trace, "VERIF_PAR": par}, timeout=2400)
+    dr = ctx.go_test("c02_crdt", run="TestBatch$", infile=inp, env={"VERIF_TRACE": trace, "VERIF_PAR": par}, timeout=2400,
+                     panic_is_violation=True)
+    crashed(ctx, dr)
     v = tlc_verdict(ctx, "CrdtPinsetTrace.tla", "CrdtPinsetTrace.cfg", trace, "batch")
     byid = {s["id"]: s for s in scripts}
     lines = [json.loads(l) for l in open(trace)]
@@ -267,12 +353,16 @@ def run_batch(ctx, scripts, par=8):
             "hook": "pinset differs from what was handed to the tracker",
             "refuse": "operation refused although the queue was not full",
             "err": "LogPin/LogUnpin returned an unexpected error",
-            "commit": "batch not committed at its size limit / committed before its age limit",
-            "pending": "accepted operations still uncommitted long after the age limit"}
+            "commit": "batch not committed at its size limit, committed before its age limit, or left uncommitted far beyond it",
+            "pending": "accepted operations still uncommitted long after the age limit",
+            "invariant": "a state explaining the recorded run breaks EffectIsPrefix / HooksCover of CrdtPinsetBatch"}
     for k, rv in enumerate(v["runs"]):
         s = byid[rv["run"]]
         bad = [p for p in ("lost", "hook", "refuse", "err", "commit", "pending") if rv[p]]
         conform = v["hwm"][k] == rv["last"] + 1
+        if v["invbad"][k]:
+            bad.append("invariant")
+            rv["invariant"] = [v["invbad"][k]]
         for p in bad:
             ln = sorted(rv[p])[0]
             ctx.violation("C02:batch:%s:%s" % (p, rv["fclass"]),
@@ -285,7 +375,7 @@ def run_batch(ctx, scripts, par=8):
             good += 1
     ctx.traces_validated += good
     ctx.extra["batch_runs"] = ctx.extra.get("batch_runs", 0) + len(scripts)
-    if drift:
+    if drift and not ctx.violations:
         s, h, l = drift[0]
         print("SPEC-DRIFT: %d batching runs satisfy the property predicates but are not behaviours of the "
               "transcription CrdtPinsetBatch; first: run %s stuck at line %s" % (len(drift), s["id"], json.dumps(l)), flush=True)
@@ -296,7 +386,9 @@ def run_net(ctx, scripts, par=8):
     inp = os.path.join(ctx.work, "c02_net.ndjson")
     trace = os.path.join(ctx.work, "c02_net.trace")
     write_cases(inp, scripts)
-    ctx.go_test("c02_crdt", run="TestNet$", infile=inp, env={"VERIF_TRACE": trace, "VERIF_PAR": par}, timeout=2400)
+    dr = ctx.go_test("c02_crdt", run="TestNet$", infile=inp, env={"VERIF_TRACE": trace, "VERIF_PAR": par}, timeout=2400,
+                     panic_is_violation=True)
+    crashed(ctx, dr)
     v = tlc_verdict(ctx, "CrdtPinsetNetTrace.tla", "CrdtPinsetNetTrace.cfg", trace, "net")
     byid = {s["id"]: s for s in scripts}
     lines = [json.loads(l) for l in open(trace)]
@@ -312,10 +404,18 @@ def run_net(ctx, scripts, par=8):
         if rv["notsynced"] or rv["badobs"]:
             raise vcheck.Infra("net run %s: observation without complete exchange / unknown pin value" % s["id"])
         bad = False
+        if v["invbad"][k]:
+            bad = True
+            ctx.violation("C02:net:membership-divergence:model-state", "a state explaining the recorded run breaks "
+                          "MembershipConvergence of CrdtPinset (line %d of the run)" % (v["invbad"][k] - rv["first"] + 1), case)
         for ln in rv["memberdiv"]:
             bad = True
             ctx.violation("C02:net:membership-divergence", "replicas that exchanged all updates disagree on which CIDs "
                           "are pinned: " + json.dumps(lines[ln - 1]["obs"]), case)
+        for x in rv["own"]:
+            bad = True
+            ctx.violation("C02:net:local-order", "replica %s was never connected and does not show exactly its own accepted "
+                          "operations in submission order: %s" % (x["rep"], json.dumps(lines[x["line"] - 1]["obs"])), case)
         for x in rv["valuediv"]:
             bad = True
             ctx.violation("C02:net:value-divergence:%s%s" % (x["shape"], sfx),
@@ -332,7 +432,7 @@ def run_net(ctx, scripts, par=8):
             good += 1
     ctx.traces_validated += good
     ctx.extra["net_runs"] = ctx.extra.get("net_runs", 0) + len(scripts)
-    if drift:
+    if drift and not ctx.violations:
         s, l = drift[0]
         print("SPEC-DRIFT: %d multi-replica runs satisfy the property predicates but are not behaviours of the "
               "transcription CrdtPinset; first: run %s stuck at %s" % (len(drift), s["id"], json.dumps(l)[:600]), flush=True)
@@ -366,13 +466,15 @@ def run(ctx):
     ctx.tlc("CrdtPinsetBatchMC.tla", "CrdtPinsetBatchMC_quick.cfg" if quick else "CrdtPinsetBatchMC_thorough.cfg",
             workers=8, timeout=3000)
     ctx.tlc("CrdtPinsetMC.tla", "CrdtPinsetMC_quick.cfg" if quick else "CrdtPinsetMC_thorough.cfg", workers=8, timeout=3000)
+    ctx.tlc("CrdtPinsetMC.tla", "CrdtPinsetMC_batch.cfg", workers=8, timeout=3000)
     ctx.exhaustive = True
     for cfg in ("CrdtPinsetBatchMC_ascoded_hang.cfg", "CrdtPinsetBatchMC_ascoded_stranded.cfg"):
         r = ctx.tlc("CrdtPinsetBatchMC.tla", cfg, count=False, expect_violation=True, workers=4, timeout=1200)
         if not r.violation:
             raise vcheck.Infra("%s: expected the as-coded age path to violate the invariant" % cfg)
     net = [dict(DESIGN_NET)]
-    for cfg, nrep, klass in (("CrdtPinsetMC_value.cfg", 3, "tlc-value-divergence"), ("CrdtPinsetMC_hooks.cfg", 2, "tlc-hook-missing")):
+    for cfg, nrep, klass in (("CrdtPinsetMC_value.cfg", 3, "tlc-value-divergence"), ("CrdtPinsetMC_hooks.cfg", 2, "tlc-hook-missing"),
+                             ("CrdtPinsetMC_batchvalue.cfg", 2, "tlc-value-divergence-batch")):
         r = ctx.tlc("CrdtPinsetMC.tla", cfg, count=False, expect_violation=True, workers=4, timeout=1200)
         h = counterexample_hist(r) if r.violation else None
         if not h:
@@ -380,19 +482,23 @@ def run(ctx):
         net.append(hist_to_script(h, nrep, klass))
     # ---- GEN
     classes = ["direct", "size", "age", "queue", "failsize", "failage", "mixed"]
-    nb = 5 if quick else 40
-    batch = targeted_batch() + [gen_batch(rng, k) for k in classes for _ in range(nb)]
+    nb = 8 if quick else 100
+    batch = targeted_batch() + tlc_batch_scripts(ctx, 30 if quick else 1000) + \
+        [gen_batch(rng, k) for k in classes for _ in range(nb)]
     for i, s in enumerate(batch):
         s["id"] = i + 1
-    for _ in range(14 if quick else 120):
+    for _ in range(24 if quick else 300):
         net.append(gen_net(rng))
     for i, s in enumerate(net):
         s["id"] = i + 1
         s["nontrivial"] = net_nontrivial(s)
     ctx.log("generated %d batching scripts, %d multi-replica scripts" % (len(batch), len(net)))
     # ---- R + V
-    run_batch(ctx, batch, par=8 if quick else 12)
-    run_net(ctx, net, par=8 if quick else 12)
+    try:
+        run_batch(ctx, batch, par=8 if quick else 12)
+        run_net(ctx, net, par=8 if quick else 12)
+    except Crashed:
+        pass
 
 
 def replay(ctx, path):
@@ -400,10 +506,16 @@ def replay(ctx, path):
     case = j.get("case") or {}
     s = dict(case.get("script") or {})
     if not s:
-        raise vcheck.Infra("replay file has no script")
+        # a crash of the driver process has no single script: repeat the whole run with the stored seed and tier
+        ctx.seed = j.get("seed", ctx.seed)
+        ctx.tier = j.get("tier", ctx.tier)
+        return run(ctx)
     s["id"] = 1
-    if case.get("kind") == "net":
-        run_net(ctx, [s], par=1)
-    else:
-        run_batch(ctx, [s], par=1)
+    try:
+        if case.get("kind") == "net":
+            run_net(ctx, [s], par=1)
+        else:
+            run_batch(ctx, [s], par=1)
+    except Crashed:
+        pass
     ctx.samples.append(s)
